@@ -174,7 +174,7 @@ def _one_run(ctx, case, shared, second=False):
                 pool.remove(want)
     # every failed expectThat leaves a 'Failed expectation' stack trace naming its mismatch
     for e in env.tags("expect_mismatch"):
-        tokn = ("mismatch-%s" % e[2]).encode()
+        tokn = (programs.MISMATCH_PREFIX + e[2]).encode("utf8")
         hits = [n for n, v in delivered.items() if n.startswith("Failed expectation") and tokn in v[1]]
         ctx.check(len(hits) == 1, "expect.failed-expectation-detail",
                   lambda: {"eid": e[2], "hits": hits, **detail()},
@@ -222,7 +222,7 @@ def _one_run(ctx, case, shared, second=False):
         if kind not in TRACEBACK_KINDS and not kind.startswith("custom:"):
             continue
         nontrivial = True
-        needle = ("mismatch-%s" % tok if kind == "mismatch" else tok).encode()
+        needle = (programs.MISMATCH_PREFIX + tok if kind == "mismatch" else tok).encode("utf8")
         hits = [n for n, v in tb.items() if needle in v]
         fixture_tok = tok.startswith("FX")
         # exceptions that compare equal / the same object raised by several stages share a token:
